@@ -105,13 +105,20 @@ def match_known(mod, known, case, vio):
     return None
 
 
+STDERR_CAPTURE = [None]
+
+
 def run_forked(mod, case):
     """execute run_case in a forked child so that a native crash becomes an exception"""
     r, w = os.pipe()
+    errpath = STDERR_CAPTURE[0]
     pid = os.fork()
     if pid == 0:
         os.close(r)
         code = 0
+        if errpath:
+            fd = os.open(errpath, os.O_WRONLY | os.O_CREAT | os.O_TRUNC, 0o600)
+            os.dup2(fd, 2)
         try:
             try:
                 res = mod.run_case(case)
@@ -134,7 +141,7 @@ def run_forked(mod, case):
             os.kill(pid, signal.SIGKILL)
             os.waitpid(pid, 0)
             os.close(r)
-            raise Violation("hang", "case did not return within the watchdog", clause="C12-hang")
+            raise Violation("hang:" + getattr(mod, "case_label", lambda c: "")(case), "case did not return within the watchdog", clause="C12-hang")
         ready, _, _ = select.select([r], [], [], min(left, 1.0))
         if ready:
             chunk = os.read(r, 1 << 16)
@@ -151,7 +158,18 @@ def run_forked(mod, case):
             raise Violation(body["bucket"], body["message"], body["expected"], body["observed"], body["clause"])
         raise HarnessError(body)
     sig = status & 0x7F
-    raise Violation("crash", "process died (wait status %d, signal %d)" % (status, sig), clause="C12-crash")
+    label = getattr(mod, "case_label", lambda c: "")(case)
+    tail = ""
+    if errpath:
+        try:
+            with open(errpath, errors="replace") as f:
+                tail = f.read()[-2500:]
+        except OSError:
+            pass
+    import re
+    m = re.search(r"(SUMMARY: [^\n]*|runtime error: [^\n]*|corrupted[^\n]*|malloc\(\)[^\n]*|free\(\)[^\n]*|double free[^\n]*|terminate called[^\n]*)", tail)
+    raise Violation("crash:" + label, "process died (wait status %d, signal %d) %s" % (status, sig, m.group(1) if m else ""),
+                    observed=tail, clause="C12-crash")
 
 
 def main():
@@ -174,6 +192,7 @@ def main():
             only_bucket = f.split("=", 1)[1]
     if hasattr(mod, "setup"):
         mod.setup(flavour, tier)
+    STDERR_CAPTURE[0] = outprefix + ".childerr"
     last_fail = {}
 
     def execute(case):
